@@ -5,7 +5,10 @@ Helper lemmas for C02 (metric tensor and Jacobian, `MeshRegion.calcMetric`, hypn
   algebraic rewrites of the generated text (bracketing, the literal zeros coming from I = 0, …);
 * `det3`: the determinant expression of the code's Jacobian check, and `*_Jcheck_eq`: the generated `Jcheck` is
   `bpsign / √(det3 g11 g22 g33 g12 g13 g23)`;
-* the algebraic cores (`n_inv**`, `n_det`, `o_det`, `jcheck_core`, `displacement_core`) on plain real variables.
+* the algebraic cores (`cos_sq_mul`, `tan_sq_eq`, `jcheck_core`, `displacement_core`, …) on plain real variables.
+Since the calcMetric sign fix every `tanBeta` of the nonorth branch occurs as `(-bpsign) * tanBeta`; the normal forms
+`nonorth_g12_eq`, `nonorth_g13_eq`, `nonorth_g_12_eq` carry `(-s * t)` accordingly.  The cores are stated for an arbitrary
+`t` and apply to the effective tangent `-s * t` through `eff_tan_sq` / `cos_sq_eff` (`(-s·t)² = t²` when `s = ±1`).
 -/
 import HypnoModel.Gen.Metric
 import Mathlib.Analysis.SpecialFunctions.Sqrt
@@ -70,14 +73,14 @@ theorem nonorth_g11_eq : nonorth.g11 R Bp hy d c t s = (R * Bp) ^ 2 := by unfold
 theorem nonorth_g22_eq : nonorth.g22 R Bp hy d c t s = 1 / (hy * c) ^ 2 := by unfold nonorth.g22; ring
 theorem nonorth_g33_eq : nonorth.g33 R Bp hy d c t s = 1 / R ^ 2 + (d / (hy * c)) ^ 2 := by
   unfold nonorth.g33; ring
-theorem nonorth_g12_eq : nonorth.g12 R Bp hy d c t s = R * |Bp| * t / hy := by unfold nonorth.g12; ring
-theorem nonorth_g13_eq : nonorth.g13 R Bp hy d c t s = -(R * Bp * d * t) / hy := by unfold nonorth.g13; ring
+theorem nonorth_g12_eq : nonorth.g12 R Bp hy d c t s = R * |Bp| * (-s * t) / hy := by unfold nonorth.g12; ring
+theorem nonorth_g13_eq : nonorth.g13 R Bp hy d c t s = -(R * Bp * d * (-s * t)) / hy := by unfold nonorth.g13; ring
 theorem nonorth_g23_eq : nonorth.g23 R Bp hy d c t s = -(s * d) / (hy * c) ^ 2 := by unfold nonorth.g23; ring
 theorem nonorth_J_eq : nonorth.J R Bp hy d c t s = hy / Bp := by unfold nonorth.J; ring
 theorem nonorth_g_11_eq : nonorth.g_11 R Bp hy d c t s = 1 / (R * Bp * c) ^ 2 := by unfold nonorth.g_11; ring
 theorem nonorth_g_22_eq : nonorth.g_22 R Bp hy d c t s = hy ^ 2 + (d * R) ^ 2 := by unfold nonorth.g_22; ring
 theorem nonorth_g_33_eq : nonorth.g_33 R Bp hy d c t s = R ^ 2 := by unfold nonorth.g_33; ring
-theorem nonorth_g_12_eq : nonorth.g_12 R Bp hy d c t s = -(hy * t) / (R * |Bp|) := by
+theorem nonorth_g_12_eq : nonorth.g_12 R Bp hy d c t s = -(hy * (-s * t)) / (R * |Bp|) := by
   unfold nonorth.g_12; ring
 theorem nonorth_g_13_eq : nonorth.g_13 R Bp hy d c t s = 0 := by unfold nonorth.g_13; ring
 theorem nonorth_g_23_eq : nonorth.g_23 R Bp hy d c t s = s * d * R ^ 2 := by unfold nonorth.g_23; ring
@@ -111,6 +114,13 @@ theorem tan_sq_eq (hc : c ≠ 0) (ht : c ^ 2 = 1 / (1 + t ^ 2)) : t ^ 2 = 1 / c 
 theorem sign_sq (hs : s = 1 ∨ s = -1) : s ^ 2 = 1 := by rcases hs with rfl | rfl <;> norm_num
 
 theorem sign_ne_zero (hs : s = 1 ∨ s = -1) : s ≠ 0 := by rcases hs with rfl | rfl <;> norm_num
+
+/-- the effective tangent `(-bpsign)·tanBeta` of the nonorth branch has the same square as `tanBeta` -/
+theorem eff_tan_sq (hs : s = 1 ∨ s = -1) : (-s * t) ^ 2 = t ^ 2 := by rcases hs with rfl | rfl <;> ring
+
+/-- hence `cos² = 1/(1+tan²)` holds for the effective tangent as well, and every core below can be used at `-s * t` -/
+theorem cos_sq_eff (hs : s = 1 ∨ s = -1) (ht : c ^ 2 = 1 / (1 + t ^ 2)) : c ^ 2 = 1 / (1 + (-s * t) ^ 2) := by
+  rw [eff_tan_sq hs]; exact ht
 
 /-- from `cos² = 1/(1+tan²)` alone: cos ≠ 0 -/
 theorem cos_ne_zero_of (ht : c ^ 2 = 1 / (1 + t ^ 2)) : c ≠ 0 := by
